@@ -18,7 +18,9 @@
 package client
 
 import (
+	"bytes"
 	"context"
+	"crypto/sha256"
 	"encoding/base64"
 	"fmt"
 	"net/http"
@@ -27,6 +29,7 @@ import (
 	ct "github.com/google/certificate-transparency-go"
 	"github.com/google/certificate-transparency-go/jsonclient"
 	"github.com/google/certificate-transparency-go/tls"
+	"github.com/google/certificate-transparency-go/x509"
 )
 
 // LogClient represents a client for a given CT Log instance
@@ -96,6 +99,26 @@ func (c *LogClient) addChainWithRetry(ctx context.Context, ctype ct.LogEntryType
 
 	var logID ct.LogID
 	copy(logID.KeyID[:], resp.ID)
+	if c.Verifier != nil {
+		// The SCT signature does not cover the log ID, so check it separately:
+		// it must be the SHA-256 hash of the log's public key (RFC 6962 s3.2).
+		pubBytes, err := x509.MarshalPKIXPublicKey(c.Verifier.PubKey)
+		if err != nil {
+			return nil, RspError{Err: fmt.Errorf("failed to marshal log public key: %v", err), StatusCode: httpRsp.StatusCode, Body: body}
+		}
+		want := sha256.Sum256(pubBytes)
+		if len(resp.ID) == 0 {
+			// No ID in the response; the signature is checked against the
+			// configured key below, so the SCT can only be from that log.
+			logID.KeyID = want
+		} else if !bytes.Equal(resp.ID, want[:]) {
+			return nil, RspError{
+				Err:        fmt.Errorf("log ID %x in response is not the ID %x of the configured log key", resp.ID, want),
+				StatusCode: httpRsp.StatusCode,
+				Body:       body,
+			}
+		}
+	}
 	sct := &ct.SignedCertificateTimestamp{
 		SCTVersion: resp.SCTVersion,
 		LogID:      logID,
